@@ -298,6 +298,8 @@ enum Action {
     RegInfix,
     RegPostfix,
     LockCtx(String),
+    /// two re-entrant actions in a row inside one handler invocation
+    Seq(Box<Action>, Box<Action>),
     /// bind variable `x` to 41 in the named context through a clone of its handle (`Context::set_variable`)
     SetVar(String),
     /// evaluate a program that invokes this very handler again (bounded recursion, two levels)
@@ -519,6 +521,10 @@ fn parse_handler(j: &J) -> Result<HSpec, E> {
                 "register_postfix" => Action::RegPostfix,
                 "lock_ctx" => Action::LockCtx(req_str(j, "ctx")?.to_string()),
                 "set_var" => Action::SetVar(req_str(j, "ctx")?.to_string()),
+                "execute_then_register" => Action::Seq(Box::new(Action::Execute), Box::new(Action::RegFunction)),
+                "parse_then_register" => Action::Seq(Box::new(Action::Parse), Box::new(Action::RegInfix)),
+                "execute_twice" => Action::Seq(Box::new(Action::Execute), Box::new(Action::Execute)),
+                "register_then_execute" => Action::Seq(Box::new(Action::RegPostfix), Box::new(Action::Execute)),
                 "execute_self" => Action::ExecuteSelf,
                 _ => return bad(format!("unknown reenter action \"{}\"", a)),
             })
@@ -945,6 +951,10 @@ fn reenter(action: &Action, id: &str) {
             }
             None => panic!("verif-handler-unknown-ctx {}", name),
         },
+        Action::Seq(a, b) => {
+            reenter(a, id);
+            reenter(b, id);
+        }
         Action::SetVar(name) => match ctx_lookup(name) {
             Some(c) => {
                 let mut c = c;
